@@ -91,6 +91,15 @@ Proof.
   rewrite <- concat_map, chunks_concat by exact Hc. reflexivity.
 Qed.
 
+Lemma batches_are_rows legacy c g : (1 <= c)%nat ->
+  concat (map b_codes (pgen_batches legacy c g)) = map v_codes (vrows g)
+  /\ concat (map b_cts (pgen_batches legacy c g)) = map (v_ct legacy) (vrows g)
+  /\ concat (map batch_rows (pgen_batches legacy c g)) = map (v_stored (planes g)) (vrows g).
+Proof.
+  intros Hc. split; [apply batches_codes; exact Hc|].
+  split; [apply batches_cts; exact Hc|apply batches_stored; exact Hc].
+Qed.
+
 Definition accept (legacy : bool) (g : geno) : bool :=
   forallb (fun x => row_ok (max_allele_ct (g_variants g)) (v_ct legacy x, v_codes x)) (vrows g).
 
